@@ -28,6 +28,8 @@ def run(ctx):
     stats += bftcommon.record_and_validate(ctx, "byz,equivocate", 6 if q else 200, 60, "c03-long", seed_offset=7)
     # 3. model -> implementation: TLC-sampled schedules of BFT.tla executed on the real nodes
     stats += bftcommon.replay_schedules(ctx, 25 if q else 600)
+    # 4. epoch-level safety where it is falsifiable, and the adversarial vote orders it yields on the real nodes
+    stats += bftcommon.epoch_step(ctx, thorough=not q) or []
     # single-node clause "finalized only moves forward" also through the start-up migration pass (bft.Engine.Resync)
     bftcommon.resync_step(ctx, 6 if q else 30, 8 if q else 100, thorough=not q, design=False)
     fin, fork, both = bftcommon.nontrivial(stats)
